@@ -17,6 +17,46 @@ impl C10 {
     }
 }
 
+/// End of the last byte any directory or table of an sfnt / TTC file occupies (the file may legally
+/// stop there: padding after the physically last table is not something a reader may rely on).
+fn used_extent(b: &[u8]) -> usize {
+    let be16 = |o: usize| if o + 2 <= b.len() { u16::from_be_bytes([b[o], b[o + 1]]) as usize } else { 0 };
+    let be32 = |o: usize| if o + 4 <= b.len() { u32::from_be_bytes([b[o], b[o + 1], b[o + 2], b[o + 3]]) as usize } else { 0 };
+    let mut end = 0usize;
+    let mut dir = |at: usize, end: &mut usize| {
+        let n = be16(at + 4);
+        *end = (*end).max(at + 12 + 16 * n);
+        for k in 0..n {
+            let o = at + 12 + 16 * k;
+            let (off, len) = (be32(o + 8), be32(o + 12));
+            if len > 0 {
+                *end = (*end).max(off + len);
+            }
+        }
+    };
+    if b.len() >= 12 && &b[0..4] == b"ttcf" {
+        let n = be32(8);
+        end = 12 + 4 * n + if be32(4) >= 0x0002_0000 { 12 } else { 0 };
+        for k in 0..n {
+            dir(be32(12 + 4 * k), &mut end);
+        }
+    } else {
+        dir(0, &mut end);
+    }
+    end.min(b.len())
+}
+
+/// One container in three ends with the last byte of its physically last table (no trailing pad).
+fn maybe_strip_trailing_pad(cx: &mut Ctx, rng: &mut Rng, bytes: &mut Vec<u8>) {
+    if rng.chance(1, 3) {
+        let e = used_extent(bytes);
+        if e < bytes.len() && bytes[e..].iter().all(|x| *x == 0) && bytes.len() - e < 4 {
+            bytes.truncate(e);
+            cx.class("file-ends-with-unpadded-table");
+        }
+    }
+}
+
 fn gen_tag(rng: &mut Rng, used: &mut Vec<u32>) -> u32 {
     loop {
         let t = match rng.below(6) {
@@ -138,7 +178,8 @@ impl Prop for C10 {
                 let mut phys: Vec<usize> = (0..ntables).collect();
                 rng.shuffle(&mut phys);
                 let sort_dir = !rng.chance(1, 5);
-                let bytes = f.build_opts(&phys, sort_dir, false);
+                let mut bytes = f.build_opts(&phys, sort_dir, false);
+                maybe_strip_trailing_pad(cx, rng, &mut bytes);
                 let exp = Expect { version, tables };
                 let wit = || J::obj(vec![("kind", J::s("sfnt")), ("bytes_head", J::hex(&bytes[..bytes.len().min(12 + 16 * 8)])), ("len", J::U(bytes.len() as u64))]);
                 let fd = match ReadScope::new(&bytes).read::<FontData<'_>>() {
@@ -185,7 +226,8 @@ impl Prop for C10 {
                 }
                 let ttc_version = if rng.bool() { 0x0001_0000 } else { 0x0002_0000 };
                 let interleaved = rng.chance(1, 3);
-                let bytes = if interleaved { sfnt::build_ttc_interleaved(ttc_version, &pool, &members) } else { sfnt::build_ttc(ttc_version, &pool, &members) };
+                let mut bytes = if interleaved { sfnt::build_ttc_interleaved(ttc_version, &pool, &members) } else { sfnt::build_ttc(ttc_version, &pool, &members) };
+                maybe_strip_trailing_pad(cx, rng, &mut bytes);
                 let wit = || J::obj(vec![("kind", J::s("ttc")), ("members", J::U(nmembers as u64)), ("bytes_head", J::hex(&bytes[..bytes.len().min(200)])), ("len", J::U(bytes.len() as u64))]);
                 let fd = match ReadScope::new(&bytes).read::<FontData<'_>>() {
                     Ok(f) => f,
